@@ -6,6 +6,7 @@ import OmplModel.Proofs.ReverseQueue
 import OmplModel.Proofs.ForwardQueueRule
 import OmplModel.Proofs.HeapFull
 import OmplModel.Proofs.HeapSpec
+import OmplModel.Proofs.HeapGridB
 /-!
 # C11 — the updatable heap always pops in order, whatever was removed or updated
 
@@ -545,5 +546,67 @@ theorem refines_multiset {lt : κ → κ → Bool} (h : SWO lt) (ops : List (Op 
 example : SpecRun ltNat ({} : Spec Nat) [.insert 5, .insert 3, .remove 1, .setKey 0 2, .pop] ⟨[], 2⟩ :=
   .cons (.insert _ 5) (.cons (.insert _ 3) (.cons (.remove _ 1) (.cons (.setKey _ 0 2)
     (.cons (.pop _ ⟨0, 2⟩ [] (by simp [rekey]) (by simp [rekey, ltNat])) (.nil _)))))
+
+/-! ## `GridB::updateAll()` — the "in-place key update, rebuild" clause through the user, for EVERY callback configuration
+
+`Model/Grid.lean` (C13's model of GridB, reused read-only) writes `updateAll()` as coded: the user's in-place writes, the
+cell-update event on every cell, then an unconditional `rebuild()` of both heaps with every cell's current key.  `cfg.ev` is the
+registered callback; NO callback registered is `ev = fun c => c.data` (the default `noCellUpdate`). -/
+section GridB
+open OmplModel.Grid
+
+/-- **after `updateAll()` both heaps are valid heaps of the CURRENT keys, whatever callback is or is not registered**: for every
+configuration (any event, any two strict weak orders), any grid state and any set of in-place writes, both arrays satisfy the heap
+invariant (hence pass the audit and have a minimal top), and every cell's heap element carries the cell's current key.  (The side
+condition — distinct heap handles, each side's cells pointing at distinct elements — is C13's `Inv`, preserved by every GridB
+operation: `updateAll_inv` in Proofs/GridUpdateAll.lean; `updateAll` writes `data` only.) -/
+theorem gridb_updateAll_rebuilds_current_keys (cfg : Cfg) (hE : SWO cfg.kltE) (hI : SWO cfg.kltI) (g : GridB)
+    (chg : List (Coord × Int))
+    (WE : (g.external.arr.toList.map (·.h)).Nodup) (WI : (g.internal.arr.toList.map (·.h)).Nodup)
+    (NE : ((((updateAll cfg g chg).cells.filter (·.border)).map (fun c => (c.helem, c.key))).map (·.1)).Nodup)
+    (NI : ((((updateAll cfg g chg).cells.filter (!·.border)).map (fun c => (c.helem, c.key))).map (·.1)).Nodup) :
+    let g' := updateAll cfg g chg
+    HeapInv cfg.kltE g'.external.arr ∧ HeapInv cfg.kltI g'.internal.arr ∧
+      topIsMin cfg.kltE g'.external.arr = true ∧ topIsMin cfg.kltI g'.internal.arr = true ∧
+      (∀ c ∈ g'.cells, c.border = true → ∀ e ∈ g'.external.arr.toList, e.h = c.helem → e.key = c.key) ∧
+      (∀ c ∈ g'.cells, c.border = false → ∀ e ∈ g'.internal.arr.toList, e.h = c.helem → e.key = c.key) := by
+  intro g'
+  obtain ⟨e1, e2, _⟩ := pokeRebuild_current hE g.external WE _ NE
+  obtain ⟨i1, i2, _⟩ := pokeRebuild_current hI g.internal WI _ NI
+  refine ⟨e1, i1, (audit_top_is_min hE _ ((heapOrdered_iff_inv _ _).mpr e1)).1,
+    (audit_top_is_min hI _ ((heapOrdered_iff_inv _ _).mpr i1)).1, ?_, ?_⟩
+  · intro c hc hb e he hh
+    exact e2 (c.helem, c.key) (List.mem_map.mpr ⟨c, List.mem_filter.mpr ⟨hc, by simpa using hb⟩, rfl⟩) e he hh
+  · intro c hc hb e he hh
+    exact i2 (c.helem, c.key) (List.mem_map.mpr ⟨c, List.mem_filter.mpr ⟨hc, by simpa using hb⟩, rfl⟩) e he hh
+
+/-- a one-dimensional grid WITHOUT a callback (`ev` = identity on the data), two isolated border cells with keys 5 and 7 -/
+def cfgNoCb : Cfg := { dim := 1, limit := 2, ltE := fun a b => decide (a < b), ltI := fun a b => decide (a < b), ev := fun c => c.data }
+def gTwo : GridB :=
+  { cells := [{ id := 0, coord := [0], data := 5, helem := 0 }, { id := 1, coord := [5], data := 7, helem := 1 }],
+    external := { arr := #[⟨0, (5, 0)⟩, ⟨1, (7, 1)⟩], next := 2 }, nextId := 2 }
+
+/-- **the seeded fast path breaks the clause (kernel-checked witness)**: the user writes key 1 into the second cell and calls
+`updateAll()`.  With the early return (`updateAllSkip`) the external heap still answers cell 0 (stale key 5) although a border cell
+with key 1 is in the grid — the top is not a minimum of the current contents; `updateAll` as coded answers cell 1. -/
+theorem gridb_updateAll_skipped_without_callback_breaks :
+    topExternal (updateAllSkip gTwo [([5], 1)]) = some 0 ∧
+      (∃ c ∈ (updateAllSkip gTwo [([5], 1)]).cells, c.border = true ∧ c.id = 1 ∧ cfgNoCb.ltE c.data 5 = true) ∧
+      topExternal (updateAll cfgNoCb gTwo [([5], 1)]) = some 1 := by
+  refine ⟨by simp [topExternal, updateAllSkip, gTwo, Heap.top], ⟨{ id := 1, coord := [5], data := 1, helem := 1 }, by simp [updateAllSkip, gTwo, pokeData, getCell, setCell], rfl, rfl, by decide⟩, ?_⟩
+  have hc : (pokeData gTwo.cells [([5], 1)]).map (fun c => { c with data := cfgNoCb.ev c }) =
+      [{ id := 0, coord := [0], data := 5, helem := 0 }, { id := 1, coord := [5], data := 1, helem := 1 }] := by
+    simp [gTwo, pokeData, getCell, setCell, cfgNoCb]
+  unfold topExternal updateAll
+  simp only [hc]
+  simp [gTwo, Heap.pokeRebuild, Heap.top, pokeAll, findIdx, List.findIdx?_cons, build, buildLoop, siftDown, Cell.key, Cfg.kltE, cfgNoCb]
+
+/-- non-vacuity of `gridb_updateAll_rebuilds_current_keys` on that grid: the side conditions hold and both orders are strict weak -/
+example : SWO cfgNoCb.kltE ∧ (gTwo.external.arr.toList.map (·.h)).Nodup ∧
+    ((((updateAll cfgNoCb gTwo [([5], 1)]).cells.filter (·.border)).map (fun c => (c.helem, c.key))).map (·.1)).Nodup := by
+  refine ⟨⟨by intro a b h; simp [Cfg.kltE, cfgNoCb] at *; omega, by intro a b c h1 h2; simp [Cfg.kltE, cfgNoCb] at *; omega⟩,
+    by simp [gTwo], by simp [updateAll, gTwo, pokeData, getCell, setCell, cfgNoCb]⟩
+
+end GridB
 
 end OmplModel.Props.C11
